@@ -247,7 +247,7 @@ def gen_case(rng, maxlen):
         kids = []
         pool = []
         for k in ["c1", "c2", "c3"][:rng.randint(2, 3)]:
-            if pool and rng.random() < 0.3:
+            if pool and rng.random() < 0.15:
                 kids.append([k, rng.choice(pool)])
             else:
                 j = leaf() if level == 1 else inner(level - 1)
